@@ -116,6 +116,13 @@ Comps(Rest, Nbr) ==
     ELSE LET k == CHOOSE x \in Rest : TRUE  R == Reach({k}, {k}, Nbr) IN {R} \cup Comps(Rest \ R, Nbr)
 Groups(F, Among) == Comps(Among, NbrMap(F, Among))
 Bodies(F) == Groups(F, 1..Len(F))
+\* manifold at every vertex: the faces around a vertex form one fan (linked through edges at that vertex)
+LinkConnected(F, v) ==
+    LET inc == {k \in 1..Len(F) : v \in Range(F[k])}
+        nbr == [k \in inc |-> {g \in inc \ {k} : \E e \in FaceEdgeSet(F, k) \cap FaceEdgeSet(F, g) : v \in {e[1], e[2]}}]
+        k0 == CHOOSE k \in inc : TRUE
+    IN Reach({k0}, {k0}, nbr) = inc
+VertexManifold(F) == \A v \in Referenced(F) : LinkConnected(F, v)
 
 \* ------------------------------------------------------------------- volume
 \* six times the signed volume: sum over faces of det(a - R, b - R, c - R).  It does not depend on
@@ -304,10 +311,25 @@ Clause(c) ==
       [] c.op = "fill" -> FillClause(c)
       [] OTHER -> "unknown_operation"
 
+\* ---------------------------------------------------------- named deviations (as built)
+\* Decided on the INPUT only.  "QDE" (known finding FillHolesQuadDiagonalIsExistingEdge): two edge-adjacent
+\* faces were removed and one diagonal of the resulting 4-cycle - the two corners the removed faces did
+\* not share, or the two they shared - is already joined by an edge of the surviving mesh.  fill_holes
+\* splits the 4-cycle along an arbitrary diagonal (and refuses a mesh of fewer than three faces).
+QuadDiagonalIsExistingEdge(c) ==
+    /\ c.op = "fill" /\ Len(c.removed) = 2
+    /\ LET A == Range(c.fb[c.removed[1] + 1])  B == Range(c.fb[c.removed[2] + 1])
+           S0 == Range(UndOf(DirEdges(c.f0)))
+       IN /\ Cardinality(A \cap B) = 2 /\ Cardinality(A \cup B) = 4
+          /\ \E d \in {A \cap B, (A \cup B) \ (A \cap B)} : \E x, y \in d : x < y /\ <<x, y>> \in S0
+Deviation(c) == IF QuadDiagonalIsExistingEdge(c) THEN "QDE" ELSE ""
+
 Init == i = 1
 Next == i < Len(Cases) /\ i' = i + 1
 Report == LET c == Cases[i]  cl == IF c.exc # "" THEN "raised_" \o c.exc ELSE Clause(c)
-          IN IF cl # "ok" THEN PrintT(<<"REJECT", c.id, cl>>) ELSE TRUE
+          IN IF cl = "ok" THEN TRUE
+             ELSE IF Deviation(c) # "" THEN PrintT(<<"REJECT", c.id, cl, Deviation(c)>>)
+             ELSE PrintT(<<"REJECT", c.id, cl>>)
 
 \* ------------------------------------------------ the inputs satisfy the hypothesis
 \* (a failure here is a defect of the harness or of this module, never a finding about trimesh)
@@ -315,7 +337,7 @@ ProperMesh(V, F) ==
     /\ Len(F) >= 1 /\ InRange(F, Len(V))
     /\ Cardinality(Range(V)) = Len(V)                                      \* distinct positions
     /\ \A k \in 1..Len(F) : FaceCross(Tri(V, F[k])) # Zero3                \* no degenerate face
-    /\ EdgesAtMostTwice(F)                                                 \* manifold edges
+    /\ EdgesAtMostTwice(F) /\ VertexManifold(F)                           \* manifold edges and vertices
 SolidBodies(V, F) ==
     Watertight(F) /\ WindingConsistent(F) /\ \A B \in Bodies(F) : Vol6On(V, F, B, Zero3) > 0
 InputSane ==
@@ -335,6 +357,9 @@ InputSane ==
          /\ (c.closed => SolidBodies(V, c.fb))
          /\ Cardinality(Range(c.removed)) = Len(c.removed) /\ Len(c.removed) \in {1, 2}
          /\ Range(c.removed) \subseteq 0..(Len(c.fb) - 1)
+         \* a hole, not a notch in the border: every edge of a removed face was shared by two faces
+         /\ LET SB == UndOf(DirEdges(c.fb)) IN
+            \A r \in Range(c.removed) : \A e \in FaceEdgeSet(c.fb, r + 1) : Count(SB, e) = 2
          /\ F = SelectSeq([k \in 1..Len(c.fb) |-> IF (k - 1) \in Range(c.removed) THEN <<>> ELSE c.fb[k]],
                           LAMBDA f : f # <<>>)
 
